@@ -176,6 +176,10 @@ pub const MAX_THREADS: usize = 32;
 #[allow(clippy::declare_interior_mutable_const)]
 const Z32: AtomicU32 = AtomicU32::new(u32::MAX);
 pub static FROZEN_AT: [AtomicU32; MAX_THREADS] = [Z32; MAX_THREADS];
+/// per thread: number of hook sites passed and the last one (read by supervisors to see whether a
+/// thread that cannot publish its own state - e.g. blocked inside a direct recv() - is moving)
+pub static T_SITES: [AtomicU64; MAX_THREADS] = [Z64; MAX_THREADS];
+pub static T_LAST: [AtomicU32; MAX_THREADS] = [Z32; MAX_THREADS];
 
 pub fn install() {
     vh::set_callback(Some(callback));
@@ -357,6 +361,10 @@ pub fn callback(s: u32) {
                 None => return,
             };
             tid = ctx.tid;
+            if (tid as usize) < MAX_THREADS {
+                T_SITES[tid as usize].fetch_add(1, Relaxed);
+                T_LAST[tid as usize].store(s, Relaxed);
+            }
             ctx.steps += 1;
             ctx.local_hits[s as usize] += 1;
             if ctx.step_limit != 0 {
